@@ -9,6 +9,7 @@ package main
 
 import (
 	"context"
+	"errors"
 	"fmt"
 	"sort"
 	"strings"
@@ -71,11 +72,18 @@ func main() {
 			}
 		})
 		defer xsync.VerifSetHook(nil)
+		if r.VariantHas("sweep") {
+			xsync.VerifSetHook(nil)
+			r.Cases("trig-sweep", r.Scale(24, 200), 1, func(c *vkit.Case) { trigSweep(c) })
+			r.Floor("trigger sweep rounds", r.Table("trig-sweep", "rounds"), 300000)
+			return
+		}
 		n := r.Scale(2500, 50000)
 		r.Cases("round", n, 1, func(c *vkit.Case) { runRound(c) })
 		// PeriodicOrTrigger with a tiny interval under trigger load: the periodic runs must go on after
 		// the triggers stop (a mishandled timer Stop/Reset under trigger load leaves the timer dead).
 		r.Cases("pot-small", r.Scale(60, 600), 1, func(c *vkit.Case) { potSmall(c) })
+		r.Floor("rounds whose parent context expired by a deadline", r.Table("parent context", "WithTimeout (expires by itself during the round)"), 100)
 		r.Floor("PeriodicOrTrigger rounds with a tiny interval under trigger load", r.Table("pot-small", "rounds"), 10)
 		r.Floor("registrations that raced the stop call", r.Table("races", "registration overlapping or after the stop call"), 200)
 		r.Floor("trigger calls made while a run was in progress", r.Table("triggers", "call during a run"), 200)
@@ -123,10 +131,37 @@ func runRound(c *vkit.Case) {
 	r := c.R
 	rnd := c.Rand
 	rd := &round{}
-	parent, parentCancel := context.WithCancel(context.Background())
-	defer parentCancel()
-	grp := xsync.NewGroup(parent)
 	settle := rnd.Bool(0.45)
+	// The parent context: in racy rounds it may also be one that ends on its own by a deadline
+	// (the group's context then reports DeadlineExceeded, not Canceled) or carries a cause.
+	parent, parentCancel := context.WithCancel(context.Background())
+	parentEnd := parentCancel
+	parentKind := "WithCancel"
+	if !settle {
+		switch rnd.Intn(7) {
+		case 1:
+			cctx, ccancel := context.WithCancelCause(context.Background())
+			parent, parentCancel = cctx, func() { ccancel(errCause) }
+			parentEnd = parentCancel
+			parentKind = "WithCancelCause"
+		case 2, 3:
+			parent, parentCancel = context.WithTimeout(context.Background(), time.Duration(rnd.Range(20, 3000))*time.Microsecond)
+			parentKind = "WithTimeout (expires by itself during the round)"
+		case 4:
+			parent, parentCancel = context.WithTimeoutCause(context.Background(), time.Duration(rnd.Range(20, 3000))*time.Microsecond, errCause)
+			parentKind = "WithTimeoutCause (expires by itself during the round)"
+		case 5:
+			parent, parentCancel = context.WithDeadline(context.Background(), time.Now().Add(-time.Second))
+			parentKind = "WithDeadline in the past"
+		}
+		if parentKind != "WithCancel" && parentKind != "WithCancelCause" {
+			p := parent
+			parentEnd = func() { <-p.Done() }
+		}
+	}
+	defer parentCancel()
+	r.Count("parent context", parentKind, 1)
+	grp := xsync.NewGroup(parent)
 	nReg := rnd.Range(2, 6)
 	stopKind := rnd.Intn(3) // 0 StopAndWait, 1 Stop then StopAndWait, 2 parent cancel then StopAndWait
 	var wg sync.WaitGroup
@@ -242,13 +277,13 @@ func runRound(c *vkit.Case) {
 		case 1:
 			grp.Stop()
 		case 2:
-			parentCancel()
+			parentEnd()
 		}
 		grp.StopAndWait()
 		recordStopReturn()
 	}
 	fail := func(sig, what string) {
-		c.Violation(sig, what, map[string]any{"round": describe(rd), "settle": settle, "stop_kind": stopKind, "stop_returned_at": stopTick.Load()})
+		c.Violation(sig, what, map[string]any{"round": describe(rd), "settle": settle, "stop_kind": stopKind, "parent_context": parentKind, "stop_returned_at": stopTick.Load()})
 	}
 
 	if settle {
@@ -468,6 +503,8 @@ func runRound(c *vkit.Case) {
 
 // relevant: goroutines of the scenario and of the group, except Periodic loops (they sit in a
 // select with a running timer and look parked although they are not).
+var errCause = errors.New("verif: cause of the parent cancellation")
+
 func relevant(g vkit.G) bool {
 	if g.Has("xsync.(*Group).Periodic.func1") {
 		return false
